@@ -6,16 +6,28 @@
 import Gen.ConvSrcR
 import Gen.ConvR
 import Proofs.Bridge
+import Mathlib.Tactic.Ring
+import Mathlib.Tactic.FieldSimp
+import Mathlib.Tactic.Linarith
 
 namespace Gep.R.ConvBridge
 open Gep.R
 
-theorem trio_0_eq (M2 q w : ℝ) : ConvSrc.trio_0 M2 q w = q / (w ^ (2:Nat) + q - M2) := by
-  bridge_simp [ConvSrc.trio_0]
-theorem trio_1_eq (M2 q x : ℝ) : ConvSrc.trio_1 M2 q x = ksqrt (q / x - q + M2) := by
-  bridge_simp [ConvSrc.trio_1]
-theorem trio_2_eq (M2 w x : ℝ) : ConvSrc.trio_2 M2 w x = x * (w ^ (2:Nat) - M2) / (1 - x) := by
-  bridge_simp [ConvSrc.trio_2]
+/-  The three formulas are compared under the guard Python itself imposes (a zero denominator raises ZeroDivisionError
+    there and is an error branch of the model, `trioRaises`), so that re-spellings which are identities only where the
+    denominators do not vanish (`Q2/xB - Q2` ↔ `Q2/xB*(1 - xB)`) still check. -/
+theorem trio_0_eq (M2 q w : ℝ) (h : w ^ (2:Nat) + q - M2 ≠ 0) : ConvSrc.trio_0 M2 q w = q / (w ^ (2:Nat) + q - M2) := by
+  first
+  | bridge_simp [ConvSrc.trio_0]
+  | (simp only [ConvSrc.trio_0]; rw [div_eq_div_iff (by intro h'; apply h; rw [← h']; ring) h]; ring)
+theorem trio_1_eq (M2 q x : ℝ) (h : x ≠ 0) : ConvSrc.trio_1 M2 q x = ksqrt (q / x - q + M2) := by
+  first
+  | bridge_simp [ConvSrc.trio_1]
+  | (simp only [ConvSrc.trio_1]; congr 1; field_simp; ring)
+theorem trio_2_eq (M2 w x : ℝ) (h : 1 - x ≠ 0) : ConvSrc.trio_2 M2 w x = x * (w ^ (2:Nat) - M2) / (1 - x) := by
+  first
+  | bridge_simp [ConvSrc.trio_2]
+  | (simp only [ConvSrc.trio_2]; field_simp; ring)
 theorem duo_0_eq (M2 t : ℝ) : ConvSrc.duo_0 M2 t = -t := by bridge_simp [ConvSrc.duo_0]
 theorem duo_1_eq (M2 tm : ℝ) : ConvSrc.duo_1 M2 tm = -tm := by bridge_simp [ConvSrc.duo_1]
 
